@@ -1267,7 +1267,7 @@ class ParsedLump(Generic[T]):
             gm_lump = instance.game_lumps[self.lump]
             LOGGER.debug('Load game lump {} v{} ({} bytes)', self.lump, gm_lump.version, len(gm_lump.data))
             result = self._read(instance, gm_lump.version, gm_lump.data)
-        if inspect.isgenerator(result):  # Convenience, yield to accumulate into a list.
+        if isinstance(result, Iterator):  # Convenience, yield (or return an iterator) to accumulate into a list.
             result = list(result)  # type: ignore
 
         instance._parsed_lumps[self.lump] = result # noqa
